@@ -11,6 +11,7 @@ import (
 	"fmt"
 	"math/rand/v2"
 	"reflect"
+	"strings"
 	"testing"
 	"time"
 
@@ -99,6 +100,9 @@ func rawUp(label, to string, fp *failPlan) func(json.RawMessage) (json.RawMessag
 	return func(d json.RawMessage) (json.RawMessage, string, error) {
 		if fp.label == label {
 			return nil, "", fmt.Errorf("verif: injected upcast failure in %s", label)
+		}
+		if len(label)%5 == 4 || strings.HasSuffix(label, "7") {
+			return d, to, nil // a rename-only migration: the data is handed on unchanged
 		}
 		var m map[string]any
 		dec := json.NewDecoder(bytes.NewReader(d))
